@@ -56,6 +56,40 @@ func (c *Ctx) analyseBuf(rule string, fn *ssa.Function, pi int, regionIn region,
 		return true, rPrefix
 	}
 	reg := c.bufRegions(fn, pi, regionIn, depth)
+	// shadow append chains: a slice of the caller's spare capacity (buf[len(buf):]) used as the destination of an
+	// append while buf itself is appended to as well — the two chains share memory and overwrite each other
+	if regionIn == rPrefix {
+		var shadow, direct ssa.Instruction
+		for _, b := range fn.Blocks {
+			for _, in := range b.Instrs {
+				call, ok := in.(*ssa.Call)
+				if !ok || len(call.Call.Args) == 0 {
+					continue
+				}
+				appendLike := false
+				if bi, ok := call.Call.Value.(*ssa.Builtin); ok && bi.Name() == "append" {
+					appendLike = true
+				} else if f := call.Call.StaticCallee(); f != nil && appendOnly[origin(f).String()] {
+					appendLike = true
+				}
+				if !appendLike {
+					continue
+				}
+				dst := call.Call.Args[0]
+				switch reg[dst] {
+				case rSuffix:
+					if sl, ok := dst.(*ssa.Slice); ok && sl.X == ssa.Value(fn.Params[pi]) {
+						shadow = in
+					}
+				case rPrefix, rBuffer:
+					direct = in
+				}
+			}
+		}
+		if shadow != nil && direct != nil {
+			c.add("violated", rule, fn, shadow.Pos(), "a second append chain is started in the caller's spare capacity (buf[len(buf):]) while buf itself is appended to: the two chains share memory and overwrite each other when the capacity suffices")
+		}
+	}
 	// effects
 	for _, b := range fn.Blocks {
 		for _, in := range b.Instrs {
